@@ -124,7 +124,27 @@ def run(cx):
             inst.site("<const>", None, "%s: %d retries x %d ms -> budget %d ms" % (side, n, t, (n + 1) * t))
             if (n, t) != (10, 2000):
                 inst.violation(side + "::DISCONNECT_RESEND_*", "disconnect retry budget", "%s retries %d x %d ms; the property states 10 x 2000 ms (22 s)" % (side, n, t))
-        inst.note("retry guards (resend only under count>0, timeout only under count==0 and due) are instance C10.d, evaluated by ./check C10")
+    with cx.instance("C09.c2", "T1 GUARD", "Closing timer: resend only while retries remain and when due; Error(Timeout) only after all retries (shared shape with C10.d)", floor=4) as inst:
+        b = R.body("client::Client::handle_events")
+        fa = cx.fa(b)
+        sends = [(loc, "client resend in Closing") for loc, lab in call_sites(b, "UdpSocket::send") if dnf_holds(fa.at(loc), [[r"is\(arg1\.state,Closing\)"]])[0]]
+        tos = [(loc, "client Error(Timeout) in Closing") for loc, lab in event_pushes(b, r"Error\{.*Timeout") if dnf_holds(fa.at(loc), [[r"is\(arg1\.state,Closing\)"]])[0]]
+        if not sends or not tos:
+            inst.violation(b.path, "Closing arm", "the Closing arm of the client's timer has no resend or no timeout (anchor)")
+        cx.guard(inst, b, sends, [[r"ne\(0,[\w.@]+\.resend_count\)", r"le\([\w.@]+\.resend_time_ms,arg2\)"]], construct="client disconnect resend guard")
+        cx.guard(inst, b, tos, [[r"eq\(0,[\w.@]+\.resend_count\)", r"le\([\w.@]+\.resend_time_ms,arg2\)"]], construct="client disconnect timeout guard",
+                 why="the closing side may give up only after all retries are used and the last interval elapsed")
+        he = R.body("server::Server::handle_event")
+        fah = cx.fa(he)
+        sends = [(loc, "server resend in Closing") for loc, lab in call_sites(he, "UdpSocket::send_to") if dnf_holds(fah.at(loc), [[r"is\(.*\.state,Closing\)"]])[0]]
+        tos = [(loc, "server Error(Timeout) in Closing") for loc, lab in event_pushes(he, r"Error\{.*Timeout") if dnf_holds(fah.at(loc), [[r"is\(.*\.state,Closing\)"]])[0]]
+        if not sends or not tos:
+            inst.violation(he.path, "Closing arm", "the Closing arm of the server's timer has no resend or no timeout (anchor)")
+        cx.guard(inst, he, sends, [[r"ne\(0,arg2\.count\)"]], construct="server disconnect resend guard")
+        cx.guard(inst, he, tos, [[r"eq\(0,arg2\.count\)"]], construct="server disconnect timeout guard")
+        for loc, lab in sends:
+            if "DisconnectFrame" not in show(he.call_expr(he.node_at(loc))):
+                inst.violation(he.path, "server resend frame", "the frame resent while Closing is not a DisconnectFrame", at=he.span_at(loc))
     with cx.instance("C09.d", "T2 order", "on a peer's disconnect the Active arm delivers received packets before Disconnect", floor=2) as inst:
         for fn in ("client::Client::handle_disconnect", "server::Server::handle_disconnect"):
             b = R.body(fn)
